@@ -1,13 +1,13 @@
 import AlatorVerif.Model.Broker
+import AlatorVerif.Model.CostBasis
+import AlatorVerif.Driver.Uist
 namespace Drv.Broker
-open PU Proto PBk
+open PU Proto PBk PCB Drv
 
 abbrev B := Brk String Float
 abbrev S := Srv String Float
-def f64 (s : String) : Float := Float.ofBits (s.toNat!.toUInt64)
-def bits (x : Float) : String :=
-  -- identify -0 with +0
-  if x == 0.0 then "0" else toString x.toBits.toNat
+
+def allSyms : List String := ["AAA", "BBB", "CCC", "ZZZ"]
 
 structure W where
   v : Variant
@@ -17,13 +17,7 @@ structure W where
   costs : List (Cost Float) := []
   b : Option B := none
   s : Option S := none
-
-def kindSide (t : Nat) : Kind × Side :=
-  match t with
-  | 0 => (.market, .sell) | 1 => (.market, .buy) | 2 => (.limit, .sell)
-  | 3 => (.limit, .buy) | 4 => (.stop, .sell) | _ => (.stop, .buy)
-
-def takeN (n : Nat) (l : List String) : List String × List String := (l.take n, l.drop n)
+  lastDiff : List (Order String Float) := []
 
 def parseCosts : Nat → List String → List (Cost Float)
   | 0, _ => []
@@ -42,95 +36,117 @@ def parseW : Nat → List String → List (String × Float)
   | n + 1, sym :: w :: rest => (sym, f64 w) :: parseW n rest
   | _, _ => []
 
-def showMap (syms : List String) (m : String → Option Float) : String :=
-  let es := syms.filterMap (fun s => (m s).map (fun v => s!"{s} {bits v}"))
-  s!"{es.length} {" ".intercalate es}"
+def sortStr (l : List String) : List String := (l.toArray.qsort (· < ·)).toList
 
-def sellFirstPerm (n : Nat) (idx : List Nat) (buf : List (Order String Float)) : Bool :=
-  let sides := idx.map (fun i => match buf[i]? with | some o => isSell o | none => false)
-  idx.length == n && (List.range n).all (fun i => idx.count i == 1) && (sides.dropWhile id).all (fun b => !b)
+def showMap (m : String → Option Float) : String :=
+  let es := (sortStr allSyms).filterMap (fun s => (m s).map (fun v => s!"{s} {fb v}"))
+  s!"{es.length} {joinSp es}"
 
 def showEv : CashEv Float → String
-  | .wOk c => s!"WOK {bits c}" | .wFail c => s!"WFAIL {bits c}" | .dOk c => s!"DOK {bits c}"
-  | .opFail c => s!"OPFAIL {bits c}" | .panic => "PANIC"
+  | .wOk c => s!"WOK {fb c}" | .wFail c => s!"WFAIL {fb c}" | .dOk c => s!"DOK {fb c}"
+  | .opFail c => s!"OPFAIL {fb c}" | .panic => "PANIC"
 
-def stepLine (w : W) (line : String) : W × String :=
-  match (line.trimAscii.toString.splitOn " ").filter (fun t => t != "") with
+def optF (x : Option Float) : String := match x with | some v => fb v | none => "-"
+
+/-- split the annotation sections after `@`: returns (op tokens, sections) -/
+def splitAnn (ts : List String) : List String × List (List String) :=
+  let op := ts.takeWhile (· != "@")
+  let rest := (ts.dropWhile (· != "@")).drop 1
+  -- sections separated by ";"
+  let secs := rest.foldl (fun (acc : List (List String)) t =>
+    if t == ";" then acc ++ [[]] else
+      match acc.reverse with
+      | [] => [[t]]
+      | last :: init => init.reverse ++ [last ++ [t]]) []
+  (op, secs)
+
+def secOf (secs : List (List String)) (tag : String) : Option (List String) :=
+  (secs.find? (fun s => s.head? == some tag)).map (·.drop 1)
+
+def observe (b : B) (srv : S) (ks : List String) : String :=
+  let st := if b.failed then "Failed" else "Ready"
+  let per := allSyms.map (fun s =>
+    let q := match b.latest s with | some q => s!"{fb q.bid} {fb q.ask}" | none => "- -"
+    s!"{s} {optF (posValue b s)} {optF (posLiq b s)} {optF (costBasis b.log s)} {optF (positionProfit b s)} {q}")
+  let hp : String → Option Float := holdPend b
+  s!"G {fb b.cash} ; H {showMap b.hold} ; P {showMap b.pend} ; HP {showMap hp} ; S {st} ; TV {fb (totalValue b ks)} ; LV {fb (liqValue b ks)} ; K {srv.pos} {srv.date} ; T {b.log.length} {joinSp (b.log.map Drv.Uist.showTrade)} ; V {joinSp per} ; XB {srv.exch.buffer.length} {joinSp (srv.exch.buffer.map Drv.Uist.showOrder)} ; XK {srv.exch.book.inner.length} {joinSp (srv.exch.book.inner.map Drv.Uist.showOrder)} ; XL {srv.exch.log.length} ; W {ks.length} {joinSp ks}"
+
+def step (w : W) (ts : List String) : W × String :=
+  let (op, secs) := splitAnn ts
+  match op with
+  | "CLIENT" :: _ => (w, "ok")
   | "COSTS" :: n :: rest => ({ w with costs := parseCosts n.toNat! rest }, "ok")
-  | "DATA" :: _ :: rest => ({ w with syms := rest, dates := [], qs := [] }, "ok")
-  | "Q" :: d :: nq :: rest =>
+  | "DATA" :: _ :: _ :: rest => ({ w with syms := rest, dates := [], qs := [] }, "ok")
+  | "Q" :: _ :: d :: nq :: rest =>
     let date := d.toInt!
     -- a date exists in Penelope only once `add_quote` was called for it
     if nq.toNat! == 0 then (w, "ok")
-    else ({ w with dates := w.dates ++ [date], qs := w.qs ++ parseQ date nq.toNat! rest }, "ok")
+    else ({ w with dates := if w.dates.contains date then w.dates else w.dates ++ [date],
+                   qs := w.qs ++ parseQ date nq.toNat! rest }, "ok")
   | ["BUILD"] =>
     let quotes : Int → String → Option (Quote Float) := fun d s =>
-      (w.qs.find? (fun e => e.1 == d && e.2.1 == s)).map (·.2.2)
+      (w.qs.reverse.find? (fun e => e.1 == d && e.2.1 == s)).map (·.2.2)
     let d0 := w.dates.headD 0
     let srv : S := { dates := w.dates, quotes := quotes, pos := 0, date := d0,
                      exch := { book := { inner := [], last := 0 }, log := [], buffer := [] } }
     let b : B := { cash := 0, hold := fun _ => none, pend := fun _ => none, latest := quotes d0,
                    log := [], costs := w.costs, failed := false }
     ({ w with b := some b, s := some srv }, "ok")
-  | op :: rest =>
+  | o :: rest =>
     match w.b, w.s with
     | some b, some srv =>
-      match op, rest with
-      | "DEP", [x] => let r := deposit b (f64 x); ({ w with b := some r.2 }, showEv r.1)
-      | "WD", [x] => let r := withdraw b (f64 x); ({ w with b := some r.2 }, showEv r.1)
+      let ks := (secOf secs "W").map (fun l => l.drop 1) |>.getD []
+      let fin (w' : W) (ev : String) : W × String :=
+        match w'.b, w'.s with
+        | some b', some s' => (w', s!"EV {ev} ; {observe b' s' ks}")
+        | _, _ => (w', "bad-op")
+      match o, rest with
+      | "DEP", [x] => let r := deposit b (f64 x); fin { w with b := some r.2 } (showEv r.1)
+      | "WD", [x] => let r := withdraw b (f64 x); fin { w with b := some r.2 } (showEv r.1)
       | "SEND", [t, sym, sh, pr] =>
-        let ks := kindSide t.toNat!
-        let price : Option Float := if pr == "-" then none else some (f64 pr)
-        let o : Order String Float := ⟨none, ks.1, ks.2, sym, f64 sh, price⟩
+        let o := Drv.Uist.parseOrder t sym sh pr
         let r := sendOrder w.v b srv o
         let ev := match r.1 with | .sent => "sent" | .invalid => "invalid" | .panic => "PANIC"
-        ({ w with b := some r.2.1, s := some r.2.2 }, ev)
-      | "CHECK", "A" :: n :: rest =>
-        let (idx, rest) := takeN n.toNat! rest
-        let idx := idx.map String.toNat!
-        match rest with
-        | "W" :: m :: ks =>
-          let ks := ks.take m.toNat!
-          if !sellFirstPerm n.toNat! idx srv.exch.buffer || n.toNat! != srv.exch.buffer.length then (w, s!"REJECT-ADMISSION {srv.exch.buffer.length}")
+        fin { w with b := some r.2.1, s := some r.2.2 } ev
+      | "CHECK", [] =>
+        match secOf secs "A" with
+        | some (_ :: ["BAD"]) => (w, "REJECT-ADMISSION not-a-permutation-of-the-batch")
+        | some (n :: idx) =>
+          let idx := idx.map String.toNat!
+          let sellAt := fun i => match srv.exch.buffer[i]? with | some o => isSell o | none => false
+          if n.toNat! != srv.exch.buffer.length || !sellFirstPerm n.toNat! idx sellAt then
+            (w, s!"REJECT-ADMISSION not-sell-first {srv.exch.buffer.length}")
           else
             let adm := idx.filterMap (fun i => srv.exch.buffer[i]?)
             let r := check w.v b srv adm ks
-            ({ w with b := some r.1, s := some r.2.1 }, if r.2.2 then "PANIC" else "ok")
+            fin { w with b := some r.1, s := some r.2.1 } (if r.2.2 then "PANIC" else "ok")
         | _ => (w, "bad-op")
-      | "LIQ", x :: "W" :: m :: ks =>
-        let r := withdrawLiq w.v b srv (ks.take m.toNat!) (f64 x)
-        ({ w with b := some r.2.1, s := some r.2.2 }, showEv r.1)
-      | "DIFF", "W" :: m :: rest =>
-        let (ks, rest) := takeN m.toNat! rest
-        match rest with
-        | ";" :: n :: ws =>
-          match diff w.v b ks (parseW n.toNat! ws) with
-          | none => (w, "PANIC")
-          | some os =>
-            let ss := os.map (fun o => (if isSell o then "S " else "B ") ++ o.symbol ++ " " ++ bits o.shares)
-            (w, s!"{os.length} {" ".intercalate ss}")
-        | _ => (w, "bad-op")
-      | "GET", "W" :: m :: ks =>
-        let ks := ks.take m.toNat!
-        let st := if b.failed then "Failed" else "Ready"
-        (w, s!"{bits b.cash} ; H {showMap w.syms b.hold} ; P {showMap w.syms b.pend} ; {st} ; {bits (totalValue b ks)} ; {bits (liqValue b ks)} ; {srv.pos} {srv.date} {b.log.length}")
+      | "LIQ", [x] =>
+        let r := withdrawLiq w.v b srv ks (f64 x)
+        fin { w with b := some r.2.1, s := some r.2.2 } (showEv r.1)
+      | "DIFF", n :: ws =>
+        match diff w.v b ks (parseW n.toNat! ws) with
+        | none => fin { w with lastDiff := [] } "PANIC"
+        | some os =>
+          let ss := os.map (fun o => (if isSell o then "S " else "B ") ++ o.symbol ++ " " ++ fb o.shares)
+          fin { w with lastDiff := os } s!"D {os.length} {joinSp ss}"
+      | "SENDDIFF", _ =>
+        let r := w.lastDiff.foldl (fun (acc : B × S × List String × Bool) o =>
+          let x := sendOrder w.v acc.1 acc.2.1 o
+          let e := match x.1 with | .sent => "sent" | .invalid => "invalid" | .panic => "PANIC"
+          (x.2.1, x.2.2, acc.2.2.1 ++ [e], acc.2.2.2 || x.1 == .panic)) (b, srv, [], false)
+        if r.2.2.2 then fin { w with b := some r.1, s := some r.2.1, lastDiff := [] } "PANIC"
+        else fin { w with b := some r.1, s := some r.2.1, lastDiff := [] } s!"SD {r.2.2.1.length} {joinSp r.2.2.1}"
+      | "GET", [] => fin w "get"
       | _, _ => (w, "bad-op")
     | _, _ => (w, "bad-op")
   | _ => (w, "bad-op")
 
-partial def loop (h : IO.FS.Stream) (v : Variant) (w : W) : IO Unit := do
-  let line ← h.getLine
-  if line.isEmpty then return ()
-  if line.trimAscii.toString == "RESET" then
-    IO.println "reset"
-    loop h v { v := v }
-  else
-    let (w', out) := stepLine w line
-    IO.println out
-    loop h v w'
+def variantOf (args : List String) : Variant :=
+  ⟨!args.contains "pinned-F4", !args.contains "pinned-F5a", !args.contains "pinned-F5b", !args.contains "pinned-F6a"⟩
 
 def main (args : List String) : IO Unit := do
-  let v := if args.contains "repaired" then Variant.repaired else Variant.pinned
-  loop (← IO.getStdin) v { v := v }
+  let v := variantOf args
+  loopWith (← IO.getStdin) ({ v := v } : W) step { v := v }
 
 end Drv.Broker
